@@ -11,53 +11,55 @@ import (
 
 // Engine X: the Go↔C contract table, written by hand from reading the C glue (DESIGN Appendix A).
 // One entry per C function called from Go; one field per parameter:
-//   v          by-value parameter
-//   R / W      pointer to one object, read / written by C
-//   R[e] W[e]  pointer to e elements (e over integer literals, argN = the call's N-th argument, + * ( ))
-//   R[*]       extent is data dependent (sum of a counts array); only non-emptiness is required
-//   ?          suffix: pointer may be NULL
+//
+//	v          by-value parameter
+//	R / W      pointer to one object, read / written by C
+//	R[e] W[e]  pointer to e elements (e over integer literals, argN = the call's N-th argument, + * ( ))
+//	R[*]       extent is data dependent (sum of a counts array); only non-emptiness is required
+//	?          suffix: pointer may be NULL
+//
 // The C engine re-derives R/W from the C prototypes (const qualification + stores through the
 // parameter) on every run and fails if a row disagrees (driver/crules.py: rule X.table).
 var contracts = map[string]string{
-	"bls_sign":                     "W[48],R,R[arg3],v",
-	"bls_verify":                   "R,R[48],R[arg3],v",
-	"bls_verifyPerDistinctMessage": "R[48],v,R[*],R[arg1],R[arg1],R[*]",
-	"bls_verifyPerDistinctKey":     "R[48],v,R[arg1],R[arg1],R[*],R[*]",
-	"bls_batch_verify":             "v,W[arg0],R[arg0],R[48*arg0],R[arg5],v,R[16*arg0]",
-	"bls_spock_verify":             "R,R[48],R,R[48]",
-	"E1_sum_vector_byte":           "W[48],R[arg2],v",
-	"Fr_sum_vector":                "W,R[arg2],v",
-	"E2_sum_vector_to_affine":      "W,R[arg2],v",
-	"E2_subtract_vector":           "W,R,R[arg3],v",
+	"bls_sign":                              "W[48],R,R[arg3],v",
+	"bls_verify":                            "R,R[48],R[arg3],v",
+	"bls_verifyPerDistinctMessage":          "R[48],v,R[*],R[arg1],R[arg1],R[*]",
+	"bls_verifyPerDistinctKey":              "R[48],v,R[arg1],R[arg1],R[*],R[*]",
+	"bls_batch_verify":                      "v,W[arg0],R[arg0],R[48*arg0],R[arg5],v,R[16*arg0]",
+	"bls_spock_verify":                      "R,R[48],R,R[48]",
+	"E1_sum_vector_byte":                    "W[48],R[arg2],v",
+	"Fr_sum_vector":                         "W,R[arg2],v",
+	"E2_sum_vector_to_affine":               "W,R[arg2],v",
+	"E2_subtract_vector":                    "W,R,R[arg3],v",
 	"E1_lagrange_interpolate_at_zero_write": "W[48],R[48*(arg3+1)],R[arg3+1],v",
-	"Fr_polynomial_image":          "W,W?,R[arg3+1],v,v",
-	"Fr_polynomial_image_write":    "W[32],W?,R[arg3+1],v,v",
-	"E2_polynomial_images":         "W[arg1],v,R[arg3+1],v",
-	"E2_vector_write_bytes":        "W[96*arg2],R[arg2],v",
-	"G2_vector_read_bytes":         "W[arg2],R[96*arg2],v",
-	"G2_check_log":                 "R,R",
-	"E1_read_bytes":                "W,R[arg2],v",
-	"E2_read_bytes":                "W,R[arg2],v",
-	"Fr_star_read_bytes":           "W,R[arg2],v",
-	"E1_write_bytes":               "W[48],R",
-	"E2_write_bytes":               "W[96],R",
-	"Fr_write_bytes":               "W[32],R",
-	"map_bytes_to_Fr":              "W,R[arg2],v",
-	"E2_in_G2":                     "R",
-	"E1_in_G1":                     "R",
-	"E2_is_infty":                  "R",
-	"E2_is_equal":                  "R,R",
-	"E1_is_equal":                  "R,R",
-	"Fr_is_equal":                  "R,R",
-	"Fr_is_zero":                   "R",
-	"E2_set_infty":                 "W",
-	"G2_mult_gen_to_affine":        "W,R",
-	"G1_mult_gen":                  "W,R",
-	"E1_mult":                      "W,R,R",
-	"E1_add":                       "W,R,R",
-	"E2_add":                       "W,R,R",
-	"Fr_mul_montg":                 "W,R,R",
-	"types_sanity":                 "",
+	"Fr_polynomial_image":                   "W,W?,R[arg3+1],v,v",
+	"Fr_polynomial_image_write":             "W[32],W?,R[arg3+1],v,v",
+	"E2_polynomial_images":                  "W[arg1],v,R[arg3+1],v",
+	"E2_vector_write_bytes":                 "W[96*arg2],R[arg2],v",
+	"G2_vector_read_bytes":                  "W[arg2],R[96*arg2],v",
+	"G2_check_log":                          "R,R",
+	"E1_read_bytes":                         "W,R[arg2],v",
+	"E2_read_bytes":                         "W,R[arg2],v",
+	"Fr_star_read_bytes":                    "W,R[arg2],v",
+	"E1_write_bytes":                        "W[48],R",
+	"E2_write_bytes":                        "W[96],R",
+	"Fr_write_bytes":                        "W[32],R",
+	"map_bytes_to_Fr":                       "W,R[arg2],v",
+	"E2_in_G2":                              "R",
+	"E1_in_G1":                              "R",
+	"E2_is_infty":                           "R",
+	"E2_is_equal":                           "R,R",
+	"E1_is_equal":                           "R,R",
+	"Fr_is_equal":                           "R,R",
+	"Fr_is_zero":                            "R",
+	"E2_set_infty":                          "W",
+	"G2_mult_gen_to_affine":                 "W,R",
+	"G1_mult_gen":                           "W,R",
+	"E1_mult":                               "W,R,R",
+	"E1_add":                                "W,R,R",
+	"E2_add":                                "W,R,R",
+	"Fr_mul_montg":                          "W,R,R",
+	"types_sanity":                          "",
 	// test/bench-only wrappers: reachable only from unexported helpers used by _test.go files
 	"map_to_G1":                        "W,R[arg2],v",
 	"unsafe_map_bytes_to_G1":           "W,R[arg2],v",
